@@ -206,7 +206,15 @@ def _split(c, op):
 def case_contexts(func):
     """{block: {switch expr rendering: frozenset(case values | 'default')}} — which case labels of each enclosing
     switch can be active when the block executes"""
-    pdom = func.postdominators()
+    # post-dominators on the graph without the rejecting blocks (errno + return): the join after a switch whose cases
+    # `return` on error is then the switch's post-dominator, and code after the switch is not "inside" every case
+    rej = {b for b, blk in func.blocks.items() if is_guard_block(blk)}
+    succ2 = {b: [x for x in func.succ(b) if x not in rej] for b in func.blocks if b not in rej}
+    pred2 = {b: [] for b in succ2}
+    for b, ss in succ2.items():
+        for x in ss:
+            pred2[x].append(b)
+    pdom = cf._dominators(func.exit, list(succ2), lambda b: pred2.get(b, []), succ2) if func.exit in succ2 else func.postdominators()
     ctx = {b: {} for b in func.blocks}
     for hid, hb in func.blocks.items():
         t = hb.get('term')
@@ -233,7 +241,124 @@ def case_contexts(func):
                 work.append((s, v))
         for b, vs in vals.items():
             ctx[b][sexpr] = frozenset(vs)
+        SWITCH_LABELS.setdefault((func.tu, func.name), {})[sexpr] = frozenset(
+            ('default' if lab == 'default' else lab[1]) for _, lab in func.edges(hid) if lab == 'default' or isinstance(lab, tuple))
     return ctx
+
+
+SWITCH_LABELS = {}   # {(tu, function): {switch expression: all its labels}}
+
+
+def case_atoms(func, cases):
+    """the case-label context of a block as condition atoms: `x == a`, `(x == a || x == b)`, or for the default label the
+    conjunction of `x != v` over the explicit labels"""
+    out = []
+    for sexpr, vals in sorted(cases.items()):
+        alll = SWITCH_LABELS.get((func.tu, func.name), {}).get(sexpr, frozenset())
+        if 'default' in vals:
+            for v in sorted((alll - vals), key=str):
+                if v != 'default':
+                    out.append(_atom(sexpr, '!=', str(v)))
+        else:
+            parts = sorted(set(_atom(sexpr, '==', str(v)) for v in vals))
+            out.append(parts[0] if len(parts) == 1 else '(' + ' || '.join(parts) + ')')
+    return out
+
+
+def normal_forms(g):
+    """a guard as a list of conjunctions (one per top-level disjunct of its own condition): sorted atom tuples, with the
+    case-label context and the enclosing conditions folded in, and `x != d` dropped next to `x == c`"""
+    base = []
+    for c in g['ctx']:
+        base.extend(_split(c, '&&') if c.startswith('(') and ' && ' in c and _top_op(c) == '&&' else [c])
+    base.extend(g['catoms'])
+    alts = [[]]
+    if g['cond'] is not None:
+        c = g['cond']
+        top = _top_op(c)
+        if top == '||':
+            alts = [[d] for d in _split(c, '||')]
+        elif top == '&&':
+            alts = [_split(c, '&&')]
+        else:
+            alts = [[c]]
+    out = []
+    for alt in alts:
+        atoms = []
+        for a in base + alt:
+            if _top_op(a) == '&&':
+                atoms.extend(_split(a, '&&'))
+            else:
+                atoms.append(a)
+        eqs = {}
+        for a in atoms:
+            m = _EQ.match(a)
+            if m:
+                eqs[m.group(1)] = m.group(2)
+        keep = []
+        for a in atoms:
+            m = _NE.match(a)
+            if m and m.group(1) in eqs and eqs[m.group(1)] != m.group(2):
+                continue
+            keep.append(a)
+        out.extend(_distribute(sorted(set(keep))))
+    return out
+
+
+def _distribute(atoms):
+    """a conjunction holding `(x == a || x == b)` is one conjunction per label (merging or splitting case labels does not change
+    the guards); contradictory combinations (x == a with x == b) are dropped"""
+    for i, a in enumerate(atoms):
+        if _top_op(a) == '||':
+            parts = _split(a, '||')
+            ms = [_EQ.match(p_) for p_ in parts]
+            if all(ms) and len({m.group(1) for m in ms}) == 1:
+                res = []
+                for p_ in parts:
+                    res.extend(_distribute(sorted(set(atoms[:i] + [p_] + atoms[i + 1:]))))
+                return res
+    eqs = {}
+    for a in atoms:
+        m = _EQ.match(a)
+        if m:
+            if m.group(1) in eqs and eqs[m.group(1)] != m.group(2):
+                return []
+            eqs[m.group(1)] = m.group(2)
+    keep = []
+    for a in atoms:
+        m = _NE.match(a)
+        if m and m.group(1) in eqs:
+            if eqs[m.group(1)] == m.group(2):
+                return []
+            continue
+        keep.append(a)
+    return [tuple(keep)]
+
+
+import re as _re
+_EQ = _re.compile(r'^([^()|&]+?) == (-?\d+)$')
+_NE = _re.compile(r'^([^()|&]+?) != (-?\d+)$')
+
+
+def _top_op(c):
+    """'&&' / '||' / None: the operator of a parenthesised canonical condition at top level"""
+    if not (c.startswith('(') and c.endswith(')')):
+        return None
+    depth = 0
+    inner = c[1:-1]
+    for i, ch in enumerate(inner):
+        if ch == '(':
+            depth += 1
+        elif ch == ')':
+            depth -= 1
+            if depth < 0:
+                return None
+        elif depth == 0:
+            if inner.startswith(' && ', i):
+                return '&&'
+            if inner.startswith(' || ', i):
+                return '||'
+    return None
 
 
 def is_guard_block(b, errfn='imb_set_errno'):
@@ -313,6 +438,7 @@ def _catalogue(func, depth=0):
             'ret': cf.evalc(ret) if ret is not None else None,
             'cond': canon(own[1]) if own else None, 'ctx': sorted(ctx), 'cases': cctx.get(bid, {}),
             'loc': cev.get('sloc') or cev['loc'], 'unconditional': own is None, 'expr': own[1] if own else None,
+            'catoms': case_atoms(func, cctx.get(bid, {})),
         }
         out.append(g)
     # checks factored out into a helper: `if (helper(args)) return <reject>;` contributes the helper's guards, with the helper's
@@ -360,6 +486,7 @@ def _catalogue(func, depth=0):
                 cs.update(g['cases'])
                 g2['cases'] = cs
                 g2['ctx'] = sorted(site_ctx + g['ctx'])
+                g2['catoms'] = case_atoms(func, site_cases) + g['catoms']
                 g2['via'] = H.name
                 g2['block'] = bid
                 out.append(g2)
